@@ -144,6 +144,17 @@ def build_pool(seed, d):
         add(f"compile only ({cfg_name})", jasm_io.make_doc([{"call": ["valid_addr"]}, "mov"], config=cfg), la, {"compile-only": cfg_name}, compile_only=True)
         add(f"fail after config ({cfg_name})", jasm_io.make_doc(["mov", "@nope"], config=cfg, macros=[{"name": "@m", "pattern": "x"}]), bn if cfg_name in ("sections", "style-intel") else la,
             {"fails": "macro-after-config:" + cfg_name}, binary=cfg_name in ("sections", "style-intel"))
+    # rules that register captures and then fail to compile (late: $deref without main_reg, $not with two arguments) - what they leave
+    # behind must not reach the next rule's captures
+    add("fail after captures (deref)", jasm_io.make_doc([{"push": ["&x"]}, {"pop": ["&x"]}, {"lea": [{"$deref": {"constant_offset": "0x8"}}]}]), la, {"fails": "late-after-captures"}, mode=("list", "all", True))
+    add("fail after captures (not)", jasm_io.make_doc([{"push": ["&a"]}, {"add": ["&b", "&c"]}, {"$not": ["pop", "ret"]}]), la, {"fails": "late-after-captures"}, mode=("list", "all", True))
+    add("fail after captures (inst)", jasm_io.make_doc(["&i", "&j", {"$and": []}]), lb, {"fails": "late-after-captures"}, mode=("list", "all", True))
+    # the NNh spelling of a hexadecimal operand under both settings of operands-full-match, on a listing where whole-operand and
+    # substring matching differ (0x10 / 0x100)
+    lh = w("h.s", render([("30", "mov", ["$0x100", "%eax"]), ("35", "mov", ["$0x10", "%ebx"]), ("3a", "add", ["$0x2a", "%eax"]), ("3d", "ret", [])]))
+    for lit in ("10h", "2ah", "0x10"):
+        for opf in (False, True):
+            add(f"hex literal {lit} op-full={opf}", jasm_io.make_doc([{"mov" if lit != "2ah" else "add": [lit]}], None, opf), lh, {"op": opf, "hexlit": lit}, mode=("list", "all", True))
     # a listing of more than a megabyte (size-gated short cuts start somewhere): a range rule that tags one of its calls, and a plain
     # rule that asks for the literal target of the same call
     # (the lines are as long as those of a C++ program: rip-relative lea with the mangled name of its target in the comment)
